@@ -19,10 +19,14 @@ func init() {
 		Doc:      "in every lib/file function that calls os.Rename, no call that can unlink the rename target (os.Remove/RemoveAll of the same value, the same field, or — through callees — a path of the same role) can execute before the rename — nor, one level up, before a static call of that function in its callers: between such an unlink and the rename a crash leaves the table missing",
 		Controls: []string{"CtlRemoveBeforeRename"},
 		Run:      ruleSwap1})
-	Register(&Rule{ID: "R-SWAP-2", Props: []string{"C10"}, Floor: 4,
-		Doc:      "every os.Rename of lib/file moves Handler.tempFile.path onto Handler.path, only for ForUpdate handlers, after the temp descriptor was closed (or is nil) on every path, and no release of Handler.lockFile can precede it",
+	Register(&Rule{ID: "R-SWAP-2", Props: []string{"C10"}, Floor: 5,
+		Doc:      "every os.Rename of lib/file moves Handler.tempFile.path onto Handler.path, only for ForUpdate handlers, after the temp descriptor was closed (or is nil) on every path, and no release of Handler.lockFile can precede it; under openType == ForUpdate every non-error return of Handler.commit has passed that rename (directly or in a helper that always performs it): an update is installed by the atomic rename or not at all",
 		Controls: []string{"CtlRemoveBeforeRename: os.Rename moves"},
 		Run:      ruleSwap2})
+	Register(&Rule{ID: "R-SWAP-5", Props: []string{"C10"}, Floor: 4,
+		Doc:      "an existing table is replaced only by os.Rename: wherever a string that is the table path (a load of Handler.path / FileInfo.Path, a Handler.Path() result, a value stored into Handler.path, or a parameter / filepath.Abs|Clean|EvalSymlinks / os.Readlink result receiving such a value — followed through static and dynamic calls) reaches a by-path file operation, that operation is read-only (os.Open/Stat/ReadFile, os.OpenFile with constant O_RDONLY, go-file OpenToRead*), an exclusive create (go-file Create: O_EXCL cannot touch an existing table), the constructor's flock-open whose descriptor goes to Handler.fp (never written: R-SWAP-3/4), or the target of os.Rename; os.OpenFile with write/trunc flags, os.Create, os.WriteFile, os.Truncate, os.Rename away from the path, generic go-file Open and unknown os/exec/syscall operations on the table path are violations — between truncation and the end of such a write the table is neither old nor new",
+		Controls: []string{"ctlCopyContents"},
+		Run:      ruleSwap5})
 	Register(&Rule{ID: "R-SWAP-3", Props: []string{"C10"}, Floor: 8,
 		Doc:      "(*Handler).FileForUpdate, evaluated for every OpenType constant, yields the temp file's descriptor for ForUpdate, the created file's for ForCreate and an error for ForRead; and no descriptor obtained from (*Handler).File is written, truncated or converted to a writer anywhere in csvq: new contents never go to the original in place",
 		Controls: []string{"CtlWriteThroughReadDescriptor"},
@@ -212,6 +216,71 @@ func ruleSwap2(c *Ctx) {
 	if n == 0 {
 		c.Unknown("anchor:os.Rename in lib/file", "-", "cannot-analyse: no function of lib/file calls os.Rename any more; the swap step the rule is about is gone")
 	}
+	// (e) the rename is the only way an update is installed: a ForUpdate commit
+	// that reports success has passed it on every path
+	if fn := c.Fn(fnHCommit); fn != nil {
+		base := orPrune(boolFieldEdge(fldHClosed, true), enumEdge(fldHType, forUpdate))
+		bad, saw := returnsWithoutSwap(c, fn, base, 0)
+		key := c.KeyAt(fn, "a ForUpdate commit succeeds only through the os.Rename of the temp file")
+		switch {
+		case !saw:
+			c.Bad(key, c.FnPos(fn), "under openType == ForUpdate no path of commit reaches an os.Rename of Handler.tempFile.path onto Handler.path (directly or in a helper that always performs it)")
+		case len(bad) > 0:
+			c.Bad(key, c.FnPos(fn), "under openType == ForUpdate the non-error return at "+strings.Join(bad, ", ")+" is reachable without the os.Rename of the temp file onto the table: on that path the new contents are either not installed at all or installed by something other than the atomic rename (copy / write in place), and a crash in between leaves a table that is neither old nor new")
+		default:
+			c.Ok(key, c.FnPos(fn), "every non-error return under openType == ForUpdate has passed the rename (or a helper that passes it on all its non-error paths)")
+		}
+	}
+}
+
+// isSwapRename: os.Rename(Handler.tempFile.path, Handler.path).
+func isSwapRename(p *core.Prog, k ssa.CallInstruction) bool {
+	return calleeIn(p, k, fnOsRename) && len(k.Common().Args) == 2 &&
+		chainEndsWith(k.Common().Args[0], fldHTemp, fldCPath) && chainEndsWith(k.Common().Args[1], fldHPath)
+}
+
+// returnsWithoutSwap lists the non-error returns of fn reachable without the
+// swap rename; a call of a lib/file method that itself passes the rename on
+// all of its non-error paths counts as the rename (helper extraction).
+func returnsWithoutSwap(c *Ctx, fn *ssa.Function, base edgePrune, depth int) (bad []string, saw bool) {
+	p := c.P
+	var partial []string
+	rets := returnsWithout(fn, nil, func(in ssa.Instruction) bool {
+		k, ok := in.(ssa.CallInstruction)
+		if !ok {
+			return false
+		}
+		if _, isDefer := in.(*ssa.Defer); isDefer {
+			return false
+		}
+		if isSwapRename(p, k) {
+			saw = true
+			return true
+		}
+		if f := core.StaticCallee(k); f != nil && depth < 2 && f != fn && f.Blocks != nil && p.InPkg(f, "lib/file") && f.Signature.Recv() != nil {
+			hb, hs := returnsWithoutSwap(c, f, base, depth+1)
+			if hs && len(hb) == 0 {
+				saw = true
+				return true
+			}
+			if hs {
+				partial = append(partial, fmt.Sprintf("%s at %s (called at %s; it performs the rename on some paths only)", f.Name(), strings.Join(hb, ", "), c.Pos(k)))
+			}
+		}
+		return false
+	}, base)
+	if len(partial) > 0 {
+		saw = true
+	}
+	for _, r := range rets {
+		if _, nonNil := errOperandKinds(c, r); !nonNil {
+			bad = append(bad, c.Pos(r))
+		}
+	}
+	if len(bad) > 0 && len(partial) > 0 {
+		bad = append(bad, "via "+strings.Join(partial, "; "))
+	}
+	return
 }
 
 // callerSites lists the static call sites of fn in csvq code.
@@ -447,4 +516,267 @@ func loadsOfCell(cell ssa.Value) []ssa.Value {
 	}
 	visit(cell)
 	return out
+}
+
+// ---------------------------------------------------------------------------
+// R-SWAP-5: by-path operations on the table path
+
+var samePathFuncs = map[string]bool{
+	"path/filepath.Abs": true, "path/filepath.Clean": true, "path/filepath.EvalSymlinks": true,
+	"path/filepath.FromSlash": true, "path/filepath.ToSlash": true, "os.Readlink": true,
+}
+
+var readOnlyPathOps = map[string]bool{
+	"os.Stat": true, "os.Lstat": true, "os.Open": true, "os.ReadFile": true, "os.Readlink": true,
+	"os.ReadDir": true, "io/ioutil.ReadFile": true, "os.IsExist": true, "os.IsNotExist": true,
+	"os.Remove": true, "os.RemoveAll": true, // unlinking the table is judged by R-SWAP-1 / R-CLEAN-6
+	goFile + ".OpenToRead": true, goFile + ".TryOpenToRead": true, goFile + ".OpenToReadContext": true,
+}
+
+const (
+	fldFIPath = "lib/query.FileInfo.Path"
+)
+
+// dataPathTaint computes which string values are the path of a table file.
+type dataPathTaint struct {
+	p       *core.Prog
+	params  map[*ssa.Parameter]bool
+	returns map[*ssa.Function]bool               // result #0 is a table path
+	stored  map[*ssa.Function]map[ssa.Value]bool // values stored into Handler.path, per function
+}
+
+func (t *dataPathTaint) storedIn(fn *ssa.Function) map[ssa.Value]bool {
+	if m, ok := t.stored[fn]; ok {
+		return m
+	}
+	m := map[ssa.Value]bool{}
+	for _, b := range fn.Blocks {
+		for _, in := range b.Instrs {
+			if st, ok := in.(*ssa.Store); ok {
+				if fa, ok := st.Addr.(*ssa.FieldAddr); ok && core.FieldOwner(fa) == fldHPath {
+					m[st.Val] = true
+				}
+			}
+		}
+	}
+	t.stored[fn] = m
+	return m
+}
+
+// is: v may be the table path.
+func (t *dataPathTaint) is(v ssa.Value, depth int) bool {
+	if v == nil || depth > 6 || !isString(v.Type()) {
+		return false
+	}
+	for _, o := range core.Origins(v, false) {
+		switch lastField(o) {
+		case fldHPath, fldFIPath:
+			return true
+		}
+		if fn := valueParent(o); fn != nil && t.storedIn(fn)[o] {
+			return true
+		}
+		switch x := o.(type) {
+		case *ssa.Parameter:
+			if t.params[x] {
+				return true
+			}
+		case *ssa.Call:
+			if t.callYieldsPath(x, depth) {
+				return true
+			}
+		case *ssa.Extract:
+			if call, ok := x.Tuple.(*ssa.Call); ok && x.Index == 0 && t.callYieldsPath(call, depth) {
+				return true
+			}
+		}
+	}
+	return false
+}
+
+func (t *dataPathTaint) callYieldsPath(call *ssa.Call, depth int) bool {
+	if samePathFuncs[t.p.CalleeName(call)] && len(call.Call.Args) > 0 && t.is(call.Call.Args[0], depth+1) {
+		return true
+	}
+	if f := core.StaticCallee(call); f != nil && t.returns[f] {
+		return true
+	}
+	return false
+}
+
+func valueParent(v ssa.Value) *ssa.Function {
+	switch x := v.(type) {
+	case ssa.Instruction:
+		return x.Parent()
+	case *ssa.Parameter:
+		return x.Parent()
+	case *ssa.FreeVar:
+		return x.Parent()
+	}
+	return nil
+}
+
+func newDataPathTaint(c *Ctx) *dataPathTaint {
+	p := c.P
+	t := &dataPathTaint{p: p, params: map[*ssa.Parameter]bool{}, returns: map[*ssa.Function]bool{}, stored: map[*ssa.Function]map[ssa.Value]bool{}}
+	fns := p.SrcFuncs()
+	for changed, round := true, 0; changed && round < 12; round++ {
+		changed = false
+		for _, fn := range fns {
+			// accessor summaries: every return yields a table path
+			if !t.returns[fn] && fn.Signature.Results().Len() >= 1 && isString(fn.Signature.Results().At(0).Type()) {
+				rets := realReturns(fn)
+				all := len(rets) > 0
+				for _, r := range rets {
+					for _, v := range returnOperandDeep(r, 0) {
+						if v == nil || !t.is(v, 0) {
+							all = false
+						}
+					}
+				}
+				if all {
+					t.returns[fn] = true
+					changed = true
+				}
+			}
+			for _, k := range core.Calls(fn) {
+				var tainted []int
+				for i, a := range k.Common().Args {
+					if isString(a.Type()) && t.is(a, 0) {
+						tainted = append(tainted, i)
+					}
+				}
+				if len(tainted) == 0 {
+					continue
+				}
+				for _, callee := range p.Callees(k) {
+					if callee.Blocks == nil || p.Name(callee) == callee.String() {
+						continue
+					}
+					off := 0
+					if k.Common().IsInvoke() {
+						off = 1 // receiver is Params[0]
+					}
+					for _, i := range tainted {
+						if i+off < len(callee.Params) && isString(callee.Params[i+off].Type()) && !t.params[callee.Params[i+off]] {
+							t.params[callee.Params[i+off]] = true
+							changed = true
+						}
+					}
+				}
+			}
+		}
+	}
+	return t
+}
+
+func ruleSwap5(c *Ctx) {
+	p := c.P
+	c.Fn(fnHCommit)
+	t := newDataPathTaint(c)
+	const oRDONLY, writeBits = 0, 0x1 | 0x2 | 0x40 | 0x200 | 0x400 // O_WRONLY|O_RDWR|O_CREATE|O_TRUNC|O_APPEND (linux)
+	for _, fn := range p.SrcFuncs() {
+		cnt := map[string]int{}
+		for _, k := range core.Calls(fn) {
+			name := p.CalleeName(k)
+			if name == "" || strings.HasPrefix(name, "invoke:") || strings.HasPrefix(name, "builtin:") {
+				continue
+			}
+			callee := core.StaticCallee(k)
+			if callee == nil || p.Name(callee) != callee.String() {
+				continue // csvq functions are followed through their parameters
+			}
+			pkg := ""
+			if callee.Pkg != nil {
+				pkg = callee.Pkg.Pkg.Path()
+			}
+			fileAPI := pkg == "os" || pkg == "io/ioutil" || pkg == "os/exec" || pkg == "syscall" || pkg == goFile || strings.HasPrefix(pkg, "golang.org/x/sys/")
+			if !fileAPI {
+				continue
+			}
+			args := k.Common().Args
+			var hit []int
+			for i, a := range args {
+				if t.is(a, 0) {
+					hit = append(hit, i)
+				}
+			}
+			if len(hit) == 0 {
+				continue
+			}
+			if readOnlyPathOps[name] {
+				if strings.Contains(name, "Open") || strings.Contains(name, "ReadFile") {
+					c.Sites++
+					c.Touch(fn)
+					ro := name[strings.LastIndex(name, "/")+1:]
+					if strings.HasPrefix(ro, "v2.") {
+						ro = "go-file." + ro[3:]
+					}
+					cnt[ro]++
+					key := c.KeyAt(fn, ro+" on the table path")
+					if cnt[ro] > 1 {
+						key += " " + ordinal(cnt[ro])
+					}
+					c.Ok(key, c.Pos(k), "read-only open")
+				}
+				continue
+			}
+			c.Sites++
+			c.Touch(fn)
+			short := name[strings.LastIndex(name, "/")+1:]
+			if strings.HasPrefix(short, "v2.") {
+				short = "go-file." + short[3:]
+			}
+			cnt[short]++
+			key := c.KeyAt(fn, short+" on the table path")
+			if cnt[short] > 1 {
+				key += " " + ordinal(cnt[short])
+			}
+			pos := c.Pos(k)
+			danger := "from the moment the table is truncated / partly overwritten until the write has finished it holds neither its old nor its new contents, and a crash (or ENOSPC) in that window loses the old table for good; an existing table may only be replaced by os.Rename of the completely written temp file"
+			switch name {
+			case "os.OpenFile":
+				if fl, ok := core.ConstInt(args[1]); ok && len(args) == 3 && fl&writeBits == 0 && fl == oRDONLY {
+					c.Ok(key, pos, "constant O_RDONLY")
+				} else {
+					c.Bad(key, pos, "os.OpenFile opens the table path with write / truncate (or non-constant) flags: "+danger)
+				}
+			case "os.Create", "os.WriteFile", "io/ioutil.WriteFile", "os.Truncate":
+				c.Bad(key, pos, short+" truncates or rewrites the table in place: "+danger)
+			case fnOsRename:
+				if hit[0] == 0 {
+					c.Bad(key, pos, "os.Rename moves the table itself away (the table path is the source): until something is renamed back, the table is missing")
+				} else {
+					c.Ok(key, pos, "the table path is the target of the rename (source and order: R-SWAP-1/2)")
+				}
+			case fnGoCreate:
+				c.Ok(key, pos, "O_CREATE|O_EXCL: fails if a table already exists at the path, cannot modify one")
+			case goFile + ".OpenToUpdate", goFile + ".TryOpenToUpdate", goFile + ".OpenToUpdateContext":
+				fp := resultOf(k, 0)
+				stored, other := false, ""
+				if fp != nil {
+					for _, r := range *fp.Referrers() {
+						switch x := r.(type) {
+						case *ssa.Store:
+							if fa, ok := x.Addr.(*ssa.FieldAddr); ok && x.Val == fp && core.FieldOwner(fa) == fldHFp {
+								stored = true
+							} else {
+								other = "stored at " + c.Pos(x)
+							}
+						case *ssa.DebugRef:
+						default:
+							other = "used at " + c.Pos(r)
+						}
+					}
+				}
+				if handlerAlloc(fn) != nil && stored && other == "" {
+					c.Ok(key, pos, "the constructor's flock-open; the descriptor only goes to Handler.fp, which is never written (R-SWAP-3, R-SWAP-4)")
+				} else {
+					c.Bad(key, pos, "the table is opened read-write outside a Handler constructor (or its descriptor is "+other+" instead of only being kept in Handler.fp): contents written through it change the table in place; "+danger)
+				}
+			default:
+				c.Bad(key, pos, short+" receives the table path and is not known to leave the file unchanged: "+danger)
+			}
+		}
+	}
 }
